@@ -93,6 +93,18 @@ fn gen(r: &mut Rng, prop: &str) -> (SCase, Vec<u8>) {
             pid += 1;
             c.plan.push((idx, m, vec![Op::Const(pid), Op::Other(T_LOG)]));
         }
+        if (prop == "C19" || prop == "C18") && r.chance(1, 2) {
+            // other special probes on the same constructs must not disturb entry / exit probes: semantic-after on
+            // block / loop / if / else (not on branches: those are C20's, with its known classes)
+            let sites: Vec<usize> = (0..c.body.len()).filter(|i| c.body[*i].is_blockish()).collect();
+            if !sites.is_empty() {
+                for _ in 0..1 + r.below(2) {
+                    let idx = *r.pick(&sites);
+                    pid += 1;
+                    c.plan.push((idx, Mode::SemanticAfter, vec![Op::Const(pid), Op::Other(T_LOG)]));
+                }
+            }
+        }
         let fe = prop == "C17" || (prop == "C16" && r.chance(1, 2));
         if fe {
             let both = r.below(3);
